@@ -50,15 +50,54 @@ def cases(draw, dag=False):
         ops, G, _info = gen.gen_dag_model(draw, ncells=(4, 6), uncached=False, handled=False, lines=False)
     else:
         ops, G = gen.gen_model_ops(draw, FEAT)
-    allcells = sorted({(tuple(op[1]), op[2]["name"]) for op in ops if op[0] == "new_cells"})
+    forced = []
+    scen = []
+    mk = lambda name, params, expr: {"name": name, "params": params, "expr": expr, "cached": True, "allow_none": None,
+                                     "form": "lambda", "tick": True}
+    if not dag and draw(st.integers(0, 2)) == 0:
+        # a cached caller of a partial cells (fails for 0): success, failure, then the partial cells is replaced
+        extra = [["new_space", [], "Qu", None, None],
+                 ["new_cells", ["Qu"], mk("u0", [["x", None]], ["bin", "//", ["lit", 12], ["var", "x"]])],
+                 ["new_cells", ["Qu"], mk("x0", [["x", None]], ["bin", "+", ["call", ["name", "u0"], [["var", "x"]], "()"],
+                                                               ["lit", 1]])]]
+        for op in extra:
+            ops.append(op)
+            gen.apply_ref(G, op)
+        forced.append(["Qu", "u0"])
+        scen.append([["eval", ["Qu"], "x0", [1], None, "()"], ["eval", ["Qu"], "x0", [0], None, "()"],
+                     ["set_cells_formula", ["Qu"], "u0", mk("u0", [["x", None]], ["bin", "+", ["var", "x"], ["lit", 50]])],
+                     ["eval", ["Qu"], "x0", [1], None, "()"]])
+    if not dag and draw(st.integers(0, 2)) == 0:
+        # a cells derived from two bases is read from another space; the nearer definition is deleted
+        extra = [["new_space", [], "Qa", None, None], ["new_space", [], "Qb", None, None],
+                 ["new_cells", ["Qa"], mk("u1", [["x", None]], ["bin", "+", ["var", "x"], ["lit", 1]])],
+                 ["new_cells", ["Qb"], mk("u1", [["x", None]], ["bin", "+", ["var", "x"], ["lit", 100]])],
+                 ["new_space", [], "Qs", [["Qa"], ["Qb"]], None], ["new_space", [], "Qp", None, None],
+                 ["new_cells", ["Qp"], mk("pc", [], ["call", ["attr", ["attr", ["name", "_model"], "Qs"], "u1"],
+                                                     [["lit", 1]], "()"])]]
+        for op in extra:
+            ops.append(op)
+            gen.apply_ref(G, op)
+        forced += [["Qa", "u1"], ["Qb", "u1"]]
+        scen.append([["eval", ["Qp"], "pc", [], None, "()"], ["del_cells", ["Qa"], "u1"],
+                     ["eval", ["Qp"], "pc", [], None, "()"]])
+    allcells = sorted({(tuple(op[1]), op[2]["name"]) for op in ops if op[0] == "new_cells"}
+                      - {(tuple(f[:-1]), f[-1]) for f in forced})
     n = min(len(allcells), draw(st.sampled_from([1, 2, 3, 3, 4, 4, 5, 5]))) if allcells else 0
-    flagged = [list(map(list, [c[0]]))[0] + [c[1]] for c in draw(st.permutations(allcells))[:n]]
+    n = max(0, min(n, 5 - len(forced)))
+    flagged = forced + [list(map(list, [c[0]]))[0] + [c[1]] for c in draw(st.permutations(allcells))[:n]]
     sids = gen.all_ctx_ids(G)
     EDITS_ = EDITS if not dag else ["set_ref", "set_ref", "set_mref", "set_mref", "set_cells_formula"]
     hist = []
     queries = []
     pinned = set()
-    for _ in range(draw(st.integers(8, 20))):
+    nsteps = draw(st.integers(8, 20))
+    at = {draw(st.integers(0, nsteps - 1)): sc for sc in scen}
+    for step in range(nsteps):
+        if step in at:
+            for op in at[step]:
+                if op[0] == "eval" or gen.apply_edit_to_picture(G, op):
+                    hist.append(op)
         k = draw(st.integers(0, 9))
         if k <= 4 or not queries:
             q = gen.gen_query(draw, G, sids + (gen.item_sids(G, 2) if draw(st.booleans()) else []))
